@@ -38,11 +38,19 @@ pub fn plan(id: &str) -> Option<Plan> {
             thorough_runs: 30_000,
             rule: "seeded runs of the market profile; one evaluation = one user account changed by a successful instruction, all structural invariants judged; distinct = instruction kind x #active slots x tag classes x account flags",
         },
+        "C04" => Plan {
+            id: "C04",
+            level: "exploration",
+            profiles: vec![MKT, MKT_F],
+            quick_runs: 1200,
+            thorough_runs: 30_000,
+            rule: "seeded runs; one evaluation = one accepted or health-rejected borrow/withdraw (main timeline or boundary fork) judged against the independent rational risk engine; distinct = ix kind x verdict x #positions x e-mode x zeroed-collateral x isolated x fork",
+        },
         _ => return None,
     })
 }
 
-pub const ALL: &[&str] = &["C02", "C16"];
+pub const ALL: &[&str] = &["C02", "C04", "C16"];
 
 pub const ASSUMPTIONS: &[&str] = &[
     "native x86-64 build of the program (same Rust source, overflow-checks on) instead of SBF; compute-unit, heap and stack limits are not modelled",
